@@ -37,7 +37,10 @@ class Ext:
         modifies=None,
         note="",
         preserves=(),
+        requires=(),
     ):
+        # requires: clauses over a0, a1, ... the caller must establish (CALL obligations)
+        self.requires = list(requires)
         self.name = name
         self.returns = returns
         self.raises = raises
@@ -134,6 +137,7 @@ class Unit:
         trusted=False,
         region=None,
         preserves=(),
+        protects=(),
     ):
         self.name = name
         self.target = target
@@ -164,6 +168,9 @@ class Unit:
         self.returns_keys = returns_keys  # result is a fresh dict with exactly these string keys
         self.trusted = trusted
         self.preserves = list(preserves)  # footprints the unit provably never writes (POST obligation)
+        # with modifies=['*']: locations that are nevertheless left unchanged (FRAME obligation
+        # of the unit, assumption at its call sites)
+        self.protects = list(protects)
         self.region = region  # "body:<loopkey>" | "stmt:<loopkey>": the unit is a statement region
         import sys as _sys
 
